@@ -159,6 +159,16 @@ CHECKS["C23"] = dict(
     technique="SMT decision (z3 NRA over re/im pairs with uninterpreted complex functions) of realness of compared operands",
     design="§4 C23", engine="E1")
 
+CHECKS["C15"] = dict(
+    level="translation_validation",
+    text="group_form_integrals + build_integral_data run on forms whose integrands are distinct symbolic scalars, "
+         "over subdomain-id patterns (ints, overlapping tuples, everywhere), metadata patterns (equal, different, "
+         "nested, int vs float vs str), integral types, coordinate-derivative stacks and both append options; per "
+         "(type, single subdomain / otherwise, metadata, derivative stack) z3 proves the output sum equals the sum "
+         "of the originals that apply, so merging across different metadata shows up as a wrong sum.",
+    technique="SMT (z3, linear real arithmetic over symbolic integrands) validation of integral regrouping",
+    design="§4 C15", engine="E1")
+
 NOT_APPLICABLE = {
     "C11": "Signature injectivity is injectivity of string renderings (repr/str, numpy array printing, float "
            "formatting) composed with sha512: CrossHair cannot confirm it, z3/cvc5 string theories answer unknown, "
